@@ -5,6 +5,7 @@ import (
 	"fmt"
 	"path"
 	"sort"
+	"strings"
 
 	"github.com/akalin/gopar/par1"
 	"github.com/akalin/gopar/par2"
@@ -20,13 +21,13 @@ import (
 // each kind, singly and in pairs (second fault in the re-run).
 
 type c18Case struct {
-	Fmt   string `json:"fmt"`   // p2, p1
-	Op    string `json:"op"`    // create, verify, repair, repairdc
-	State string `json:"state"` // intact, missing, changed, shifted, beyond, volmissing
-	Order int    `json:"order"` // listing order variant: 0 sorted, 1 reversed, 2 rotated
-	I     int    `json:"i"`     // call index of the first fault
-	Kind  int    `json:"kind"`  // 0 error without effect, k>0: write torn at the k-th cut
-	Pairs bool   `json:"pairs"` // also enumerate every second fault in the re-run
+	Fmt   string `json:"fmt"`             // p2, p1
+	Op    string `json:"op"`              // create, verify, repair, repairdc
+	State string `json:"state"`           // intact, missing, changed, shifted, beyond, volmissing
+	Order int    `json:"order"`           // listing order variant: 0 sorted, 1 reversed, 2 rotated
+	I     int    `json:"i"`               // call index of the first fault
+	Kind  int    `json:"kind"`            // 0 error without effect, k>0: write torn at the k-th cut
+	Pairs bool   `json:"pairs"`           // also enumerate every second fault in the re-run
 	World int    `json:"world,omitempty"` // 0: 2 files / 3 blocks (PAR1: 3 files / 2 volumes); 1 (thorough): 3 files / 7 blocks in 3 recovery files (PAR1: 4 files / 3 volumes), all 6 listing orders
 }
 
@@ -103,6 +104,19 @@ func (w *c18World) initial(op, state string, seed int64) *envfs.FS {
 	case "volmissing":
 		dmg(scen.Dmg{Op: "delrec", F: 0})
 		dmg(scen.Dmg{Op: "ovw", F: 0, At: 1})
+	case "lookalike":
+		// recovery files under names without the conventional .volNN+MM infix: a renamed volume of this set (its blocks
+		// are needed) and the index of another set; a fault on reading either must surface like any other
+		if w.fmtName == "p2" {
+			rf := w.p2.RecFiles[len(w.p2.RecFiles)-1]
+			b, _ := fs.Get(rf)
+			fs.Del(rf)
+			fs.Put(strings.TrimSuffix(w.index, ".par2")+".backup.par2", b)
+			if other, err := scen.GetP2(scen.P2Config{Sizes: []int{5}, Slice: 4, Blocks: 1, Class: "uniq"}, seed+31); err == nil {
+				fs.Put(strings.TrimSuffix(w.index, ".par2")+".other.par2", other.FS0.Files[other.Index])
+			}
+			dmg(scen.Dmg{Op: "del", F: 0})
+		}
 	case "two":
 		// two files need rewriting and capacity suffices: one deleted, one shifted (PAR1: two deleted, 2 volumes)
 		if w.fmtName == "p2" {
@@ -222,7 +236,7 @@ func (w *c18World) withinCapacity(fs *envfs.FS) bool {
 }
 
 func c18Gen(g *core.Gen) {
-	states := []string{"intact", "missing", "changed", "shifted", "beyond", "volmissing", "two"}
+	states := []string{"intact", "missing", "changed", "shifted", "beyond", "volmissing", "two", "lookalike"}
 	worlds := []int{0}
 	if g.Thorough() {
 		worlds = []int{0, 1}
@@ -234,6 +248,9 @@ func c18Gen(g *core.Gen) {
 				for _, st := range states {
 					if op == "create" && st != "intact" && st != "changed" {
 						continue
+					}
+					if st == "lookalike" && f == "p1" {
+						continue // PAR1 volumes are found by their fixed names
 					}
 					norders := 3
 					if world == 1 {
@@ -442,7 +459,7 @@ func init() {
 	core.Register(&core.Prop{
 		ID:    "C18",
 		Level: "fault_enumeration",
-		Rule: "environment enumeration on the owned filesystem: {Create, Verify, Repair, Repair+double-check} x {PAR1, PAR2} x archive state {intact, one file missing, one changed, one shifted, beyond capacity, volume missing + damage, two damaged} x listing order {sorted, reversed, rotated}; thorough adds a larger world (3 files, 7 blocks in 3 recovery files; PAR1 4 files, 3 volumes) with all 6 listing orders; a fault at EACH I/O call index of the never-faulted run, of each kind (error without effect; for writes additionally torn at byte 0, 1, middle, len-1 and packet/field boundaries), and for each such fault EVERY second fault in the re-run (pairs), followed by a fault-free re-run. " +
+		Rule: "environment enumeration on the owned filesystem: {Create, Verify, Repair, Repair+double-check} x {PAR1, PAR2} x archive state {intact, one file missing, one changed, one shifted, beyond capacity, volume missing + damage, two damaged, recovery data under look-alike names (a renamed volume whose blocks are needed + another set's index)} x listing order {sorted, reversed, rotated}; thorough adds a larger world (3 files, 7 blocks in 3 recovery files; PAR1 4 files, 3 volumes) with all 6 listing orders; a fault at EACH I/O call index of the never-faulted run, of each kind (error without effect; for writes additionally torn at byte 0, 1, middle, len-1 and packet/field boundaries), and for each such fault EVERY second fault in the re-run (pairs), followed by a fault-free re-run. " +
 			"Oracle: a reached fault => non-nil error; a path whose write failed is not reported repaired; only write targets change; the fault-free re-run succeeds exactly like the never-faulted run and ends in the same directory whenever the reference says the (possibly torn) directory is still within capacity. non-trivial = the injected fault was reached",
 		Assumptions: []string{"faults are injected at the fileIO seam (the only I/O gopar performs)", "a torn write leaves a prefix of the data in the target file"},
 		NewCase:     func() interface{} { return &c18Case{} },
